@@ -44,7 +44,7 @@ Conforms ==
 (* frames are independent: whenever the spec is at a frame boundary the implementation is in
    its initial state (state 1) - the correspondence is discovered by the product *)
 BoundaryIsInitial ==
-  (bits = <<>>) => (i = 1 \/ Bad([prop |-> "C06", kind |-> "boundary", comp |-> Comp,
+  (bits = <<>>) => (G[i].cls = G[1].cls \/ Bad([prop |-> "C06", kind |-> "boundary", comp |-> Comp,
                                   access |-> G[i].access, id |-> G[i].id,
                                   note |-> "at a frame boundary the decoder is not in its initial state"]))
 
